@@ -71,8 +71,7 @@ for _fn, _arg in (('_tls12_sign_ecdsa_SKE', 'serverKeyExchange'), ('_tls12_sign_
 
 REG.note('C10', 'trusted', 'M2 (sign-then-verify tasks): privateKey.sign/verify are opaque; that verify returns false for a wrong '
                            'signature is the verify contracts (RSA: proved here; ECDSA/EdDSA/DSA: external package, assumed)')
-REG.note('C10', 'not_built', 'sign-then-verify dominance for signServerKeyExchange (<TLS1.2 branch) and the post-handshake '
-                             'client CertificateVerify (tlsrecordlayer._handle_pha, partly under C16)')
+REG.note('C10', 'not_built', 'sign-then-verify dominance for signServerKeyExchange (<TLS1.2 branch)')
 
 
 # ---------------------------------------------------------------------------------------------------------------------
@@ -130,7 +129,7 @@ def h_create_cv(ex, recv, args, kwargs, st, fr, node):
            z3.And(to_val(va[0]) == to_val(g['sig']), to_val(va[1]) == to_val(sa[0])))
         ob('verified-with-the-same-padding-hash-and-salt-parameters',
            len(va) == len(sa) + 1 and z3.And([to_val(a) == to_val(b) for a, b in zip(va[2:], sa[1:])] + [z3.BoolVal(True)]))
-        pk = st.env.get('privateKey')
+        pk = st.env.get('privateKey') or st.env.get('p_key') or st.env.get('private_key')
         sf, vf = g.get('sig_func'), g.get('ver_func')
         if pk is None or sf is None or vf is None:
             ob('verify-method-belongs-to-the-signing-key', False)
@@ -160,7 +159,8 @@ def _mk_cv_check(min_sites):
 
 for _name, _q in (('KeyExchange.makeCertificateVerify', KX + 'makeCertificateVerify'),
                   ('_clientTLS13Handshake', TC + '_clientTLS13Handshake'),
-                  ('_serverTLS13Handshake', TC + '_serverTLS13Handshake')):
+                  ('_serverTLS13Handshake', TC + '_serverTLS13Handshake'),
+                  ('_handle_pha', 'tlslite/tlsrecordlayer.py:TLSRecordLayer._handle_pha')):
     m2task('%s/CertificateVerify-sign-then-verify' % _name, ('C10',), _q, _mk_cv_spec(), check=_mk_cv_check(1),
            opts={'ground_feasible': True},
            doc='the CertificateVerify signature handed to create() is the one just made and was verified, with the same data and '
